@@ -150,8 +150,8 @@ def evalFn (fn k : String) (ps : List Nat) (raw xs : List Nat) : Option String :
     let a := exc ds (reverse xs); let b := exc ds (reverseRvalue xs)
     some (if a == b then a else s!"{a}!={b}")
   | "seqiter", [R] =>
-    if !sq || R ≥ 8 then none else
-    let (c, log) := seqIteration xs (fun e log => (bit R e, log ++ [e])) []
+    if !sq || R ≥ 16 then none else
+    let (c, log) := seqIteration xs (fun e (log : List Nat) => (bit (R % 8) ((e + (if R ≥ 8 then log.length else 0)) % 3), log ++ [e])) []
     some s!"{ds c}|{ds log}"
   | "atopt", [I] =>
     if !(k == "v" || k == "d" || k == "a") || I > 1005 then none else
